@@ -51,6 +51,9 @@ ASSUMPTIONS = [
     "within one render): the clauses do not presuppose which read sizes what; they require ONE admissible "
     "resolution per render, identical s x v for every strip, rh strips with rows [k*v,(k+1)*v), pixels equal "
     "to the reference at the transmitted resolution s x v*rh, and no exception",
+    "multi-render histories on one image object (seek / render / partially consumed ImageIterator): every "
+    "render and every iterator frame is judged on its own against the CURRENT frame (image.tell() / the "
+    "iterator's frame number) of the source, re-read from the file",
     "payload length 0 cannot occur in a real render (sizes are >= 1 px): it is covered by the "
     "spec -> code replay of get_chunks only",
 ]
@@ -202,8 +205,8 @@ class _Stable:
 
 # --------------------------------------------------------------------------- real render
 
-def render_case(case):
-    """Runs the REAL code.  -> (output text, header for Trace_Gfx, Reference)"""
+def open_image(case):
+    """-> (real image object, Reference, animated)"""
     stubs.set_identity(case["ident"])
     stubs.set_term(size=(80, 30), cell=case.get("cell"), fg_bg=tuple(case["fg_bg"]))
     cls = renderkit.image_class(case["style"])
@@ -221,16 +224,38 @@ def render_case(case):
             image.jpeg_quality = case["jpeg"]
         if case.get("rff") is not None:
             image.read_from_file = case["rff"]
+    return image, ref, animated
+
+
+def render_case(case):
+    """Runs the REAL code once on a fresh image object.  -> (output, header, Reference)"""
+    image, ref, animated = open_image(case)
+    try:
+        out, hdr = render_on(image, case, ref, animated)
+    finally:
+        try:
+            image.close()
+        except Exception:
+            pass
+    return out, hdr, ref
+
+
+def render_on(image, case, ref, animated, via=None, text=None):
+    """One render of ``image`` (or, with ``text``, an already produced ImageIterator frame).
+    -> (output text, header for Trace_Gfx)"""
+    kind = case["srckind"]
     rsize = tuple(image.rendered_size)
     args = dict(case.get("args", {}))
     if case.get("method"):
         args["method"] = case["method"]
-    via = case["via"]
+    via = via or case["via"]
     cells2 = case.get("cells2")  # [first read, second read, first, ...] of an unstable terminal
     env = FlipCellSize(cells2) if cells2 else _Stable()
-    try:
+    if True:
         with env:
-            if via == "str":
+            if text is not None:
+                out = text
+            elif via == "str":
                 out = str(image)
             elif via == "format":
                 out = format(image, renderkit.format_spec_for(case))
@@ -245,11 +270,6 @@ def render_case(case):
                 out = image._renderer(on_frame, case["alpha"], **args)
             else:
                 out = image._renderer(image._render_image, case["alpha"], **args)
-    finally:
-        try:
-            image.close()
-        except Exception:
-            pass
     cell = (cells2[0] if cells2 else case.get("cell")) or [1, 2]
     cell2 = cells2[1] if cells2 else cell
     alpha = 40 / 255 if via == "str" else case["alpha"]
@@ -269,7 +289,7 @@ def render_case(case):
         jpeg=case.get("jpeg") if case.get("jpeg") is not None else -1,
         rff=case.get("rff") if case.get("rff") is not None else True,
         animated=animated,
-        frame=via == "frame",
+        frame=via in ("frame", "iter"),
         readable=kind not in ("pil", "pilgone") and not kind.endswith(":gone"),
         modeclass=proj.mode_class(ref.mode),
         alphakind=alpha_kind(alpha),
@@ -279,7 +299,7 @@ def render_case(case):
         ch2=cell2[1],
         cell_reads=env.reads,
     )
-    return out, hdr, ref
+    return out, hdr
 
 
 _KEEP = (
@@ -288,8 +308,57 @@ _KEEP = (
 ).split()
 
 
+def traces_of(case):
+    """All traces of a case: one for a plain case, one per render for a multi-render history."""
+    if "history" in case:
+        return history_traces(case)
+    return [trace_of(case)]
+
+
+def history_traces(case):
+    """seek / render / partially consumed ImageIterator ... on ONE image object.  Every render
+    (and every frame an iterator yields) is a trace of its own whose reference is the CURRENT
+    frame (``image.tell()`` / the iterator's frame number) of the source."""
+    from term_image.image import ImageIterator
+
+    image, ref0, animated = open_image(case)
+    traces = []
+    try:
+        for step in case["history"]:
+            if step[0] == "seek":
+                image.seek(step[1])
+            elif step[0] == "render":
+                ref = ref0.at_frame(image.tell())
+                out, hdr = render_on(image, case, ref, animated)
+                hdr["hist"] = f"render@{image.tell()}"
+                traces.append(_trace(out, hdr, ref, case))
+            elif step[0] == "iter":
+                it = ImageIterator(image, 1, renderkit.format_spec_for(case), False)
+                for i in range(step[1]):
+                    text = next(it)
+                    ref = ref0.at_frame(i)
+                    out, hdr = render_on(image, case, ref, animated, via="iter", text=text)
+                    hdr["hist"] = f"iter@{i}"
+                    traces.append(_trace(out, hdr, ref, case))
+                if step[2] == "close":
+                    it.close()
+                del it
+            else:
+                raise tlc.MachineryError(f"unknown history step {step}")
+    finally:
+        try:
+            image.close()
+        except Exception:
+            pass
+    return traces
+
+
 def trace_of(case):
     out, hdr, ref = render_case(case)
+    return _trace(out, hdr, ref, case)
+
+
+def _trace(out, hdr, ref, case):
     stream = lexer.lex(out, keep_payloads=True)
     unk = lexer.unknowns(stream)
     if unk:
@@ -514,7 +583,40 @@ def unstable_cases(rng, tier):
                 yield c
 
 
+def history_cases(rng, tier):
+    """Several renders on ONE image object of an animated source: the frame shown must always be
+    the CURRENT one (a PIL-image source object is reused and keeps its last frame position)."""
+    nf = 4
+    reps = 1 if tier == "quick" else 12
+    for _ in range(reps):
+        for style, method in (("kitty", "lines"), ("kitty", "whole"), ("iterm2", "lines"),
+                              ("iterm2", "whole"), ("iterm2", "anim")):
+            for how in ("pil", "gone", "file"):
+                n, m = rng.randrange(1, nf), rng.randrange(1, nf)
+                k = rng.randrange(2, nf)
+                for hist in (
+                    [["seek", n], ["render"], ["seek", 0], ["render"]],
+                    [["seek", 0], ["render"], ["seek", n], ["render"], ["seek", 0], ["render"]],
+                    [["seek", n], ["render"], ["seek", m], ["render"], ["seek", 0], ["render"], ["render"]],
+                    [["iter", k, "close"], ["render"], ["seek", 0], ["render"]],
+                    [["iter", k, "drop"], ["seek", 0], ["render"], ["seek", n], ["render"]],
+                    [["render"], ["iter", 2, "close"], ["seek", 0], ["render"], ["iter", 1, "drop"], ["render"]],
+                ):
+                    c = base_case(rng, style, method=method, size=[rng.randrange(1, 5), rng.randrange(1, 4)],
+                                  cell=rng.choice(CELLS), src=rng.choice([[3, 5], [16, 9], [40, 40]]),
+                                  mode="P", srckind=f"anim:{nf}:0:{how}", alpha=rng.choice(ALPHAS))
+                    if rng.random() < 0.5:
+                        c["args"]["compress"] = rng.randrange(0, 10)
+                    if style == "iterm2":
+                        c["jpeg"] = rng.choice([None, None, 50])
+                        c["rff"] = rng.choice([None, True, False])
+                    c["via"] = rng.choice(["format", "renderer"])
+                    c["history"] = hist
+                    yield c
+
+
 def gen_cases(rng, tier):
+    yield from history_cases(rng, tier)
     yield from unstable_cases(rng, tier)
     yield from boundary_cases(rng, tier)
     yield from gate_cases(rng, tier)
@@ -777,6 +879,7 @@ def main(rep: Report, replay: dict | None) -> None:
     bc: dict[str, int] = {}
     actions: dict[str, int] = {}
     unstable: dict[str, int] = {}
+    histories: dict[str, int] = {}
     rejected = 0
     block = 4000
     for b0 in range(0, len(cases), block):
@@ -785,7 +888,7 @@ def main(rep: Report, replay: dict | None) -> None:
         for case in cases[b0 : b0 + block]:
             rep.evaluations += 1
             try:
-                tr = trace_of(case)
+                trs = traces_of(case)
             except tlc.MachineryError:
                 raise
             except Exception as e:
@@ -795,8 +898,8 @@ def main(rep: Report, replay: dict | None) -> None:
                     {"case": case},
                 )
                 continue
-            traces.append(tr)
-            owners.append(case)
+            traces.extend(trs)
+            owners.extend([case] * len(trs))
         phase["render+project"] += round(time.time() - t0, 1)
         t0 = time.time()
         allt = traces
@@ -849,6 +952,9 @@ def main(rep: Report, replay: dict | None) -> None:
         for key, n in classify_boundaries(traces).items():
             bc[key] = bc.get(key, 0) + n
         for tr in traces:
+            if "hist" in tr["hdr"]:
+                histories[tr["hdr"]["hist"]] = histories.get(tr["hdr"]["hist"], 0) + 1
+        for tr in traces:
             if tr["hdr"]["unstable"]:
                 key = f"{tr['hdr']['style']}:{tr['hdr']['method']}:reads={tr['hdr']['cell_reads']}"
                 unstable[key] = unstable.get(key, 0) + 1
@@ -868,6 +974,9 @@ def main(rep: Report, replay: dict | None) -> None:
     rep.extra["renders"] = len(cases)
     rep.extra["Trace_Gfx_actions"] = actions
     rep.extra["unstable_cell_size_renders"] = unstable
+    rep.extra["multi_render_history_traces"] = histories
+    if not replay and not rep.violations and not (histories.get("render@0") and histories.get("iter@1")):
+        raise tlc.MachineryError(f"multi-render history group is vacuous: {histories}")
     if not replay and not rep.violations:
         if not unstable or any(k.endswith("reads=0") for k in unstable):
             raise tlc.MachineryError(f"unstable-environment group is vacuous (no cell size read seen): {unstable}")
